@@ -68,6 +68,8 @@ fn type_class(e: &TransformError) -> Option<&'static str> {
         // UndeclaredVariableDomain is raised for a member of a declared family whose computed index lies outside the declared
         // index set (x_{-2} with x_i for i in 0..4): data-dependent (index out of range); an undeclared family or plain name is
         // UndeclaredVariable and is checked statically
+        // "value that cannot be destructured" is raised as a free-form error by apply_tuple
+        TransformError::Other(m) if m.contains("Cannot destructure") => Some("CannotDestructure"),
         _ => None,
     }
 }
@@ -84,7 +86,7 @@ fn scalar(r: &mut Rng, depth: usize) -> String {
     }
 }
 fn gen_program(r: &mut Rng) -> String {
-    let it = |r: &mut Rng| -> String { match r.below(5) { 0 => format!("i in {}", r.pick(ITERS)), 1 => format!("(a, c) in {}", r.pick(ITERS)), 2 => format!("(a, c, w) in {}", r.pick(ITERS)), 3 => format!("i in {}, j in {}", r.pick(ITERS), r.pick(ITERS)), _ => format!("(v, i) in enumerate({})", r.pick(ITERS)) } };
+    let it = |r: &mut Rng| -> String { match r.below(5) { 0 => format!("i in {}", r.pick(ITERS)), 1 => format!("(a, c) in {}", r.pick(ITERS)), 2 => if r.chance(1, 2) { format!("(a, c, w) in {}", r.pick(ITERS)) } else { format!("(a, c, w, e4) in {}", r.pick(ITERS)) }, 3 => format!("i in {}, j in {}", r.pick(ITERS), r.pick(ITERS)), _ => format!("(v, i) in enumerate({})", r.pick(ITERS)) } };
     let body = |r: &mut Rng| -> String { match r.below(6) { 0 => format!("x_i * {}", scalar(r, 1)), 1 => format!("{} * x", scalar(r, 2)), 2 => "x_a".to_string(), 3 => format!("x_{{{}}}", scalar(r, 1)), 4 => format!("{}", scalar(r, 2)), _ => "i * x_i".to_string() } };
     let mut cons: Vec<String> = Vec::new();
     for _ in 0..1 + r.below(3) {
@@ -154,8 +156,36 @@ fn main() {
         let line = format!("(TCexp {} {} {})", c, accepted, outcome);
         if rep.distinct_hash_new(&line) { writeln!(cases, "{line}").unwrap(); writeln!(inputs, "let r = {t}").unwrap(); }
     }
+    // the width of an element is static for enumerate / edges / neigh_edges / zip; for rows of an array it is data, so a
+    // failed destructuring there is data-dependent
+    fn static_width_only(src: &str) -> bool {
+        let mut rest = src;
+        while let Some(i) = rest.find(") in ") {
+            let before = &rest[..i];
+            let is_tuple = before.rfind('(').map(|k| before[k..].contains(',')).unwrap_or(false);
+            let after = &rest[i + 5..];
+            if is_tuple && !(after.starts_with("enumerate(") || after.starts_with("edges(") || after.starts_with("neigh_edges(") || after.starts_with("zip(")) { return false; }
+            rest = after;
+        }
+        true
+    }
     // (c) perturbed programs + the repository's own programs
     let mut programs: Vec<(String, &str)> = (0..n * 4).map(|_| (gen_program(&mut r), "perturbed")).collect();
+    // deterministic near-miss probes: one static check boundary at a time inside an otherwise valid program
+    let cons_probes = ["x >= 0 for (a, c, w, e4) in edges(G)", "x >= 0 for (a, c, w) in edges(G)", "x >= 0 for (a, c) in edges(G)", "x >= 0 for (a, c, w) in enumerate(A)", "x >= 0 for (a, c) in enumerate(A)", "x >= 0 for (a, c, w) in zip(A, A)",
+        "x >= 0 for (a, c, w, e4) in neigh_edges_of(v, G)", "sum((a, c, w, e4) in edges(G)) { x } <= 1", "sum((a, c, w) in enumerate(S)) { x } <= 1", "sum((a) in A) { x } <= 1", "x >= 0 for (a, c) in A", "x >= 0 for (a, c) in nodes(G)",
+        "len(A, A) <= 1", "len() <= 1", "x + len(n) <= 1", "x + len(G) <= 1", "sum(i in enumerate()) { x } <= 1", "sum(i in range(0)) { x } <= 1", "sum(i in range(0, 2, 3, 4)) { x } <= 1", "sum(i in edges(A)) { x } <= 1", "sum(i in nodes(n)) { x } <= 1", "sum(i in zip(A)) { x } <= 1", "nope(A) <= 1", "sum(i in nope(A)) { x } <= 1",
+        "x + A[s] <= 1", "x + A[b] <= 1", "x + A[G] <= 1", "x + M[0][s] <= 1", "x + n[0] <= 1", "x + s[0] <= 1", "x + G[0] <= 1", "x_{G} >= 0", "x_{A} >= 0", "x_{M[0]} >= 0",
+        "x + (s + 1) <= 2", "x + (1 + s) <= 2", "x + (s + s) <= 2", "x + (s * 2) <= 2", "(b and n) or x >= 0", "x + (not n) <= 1", "x + (-s) <= 1", "x + (-G) <= 1", "x + (A + 1) <= 1", "x + (G * 2) <= 1", "x + (b + 1) <= 2", "x + (b * k) <= 2", "x + (n / b) <= 2",
+        "x >= 0 for i in n", "x >= 0 for i in s", "x >= 0 for i in G", "x >= 0 for i in b", "x >= 0 for i in 0..s", "x >= 0 for i in b..3", "x >= 0 for i in 0..A", "x >= 0 for i in A[0]", "x >= 0 for i in M[0]", "x >= 0 for i in M[0][0]",
+        "min { x, s } >= 0", "max { x, G } >= 0", "abs { s } >= 0", "avg { x, A } >= 0", "all { b, n } ", "any { s }", "x + sum(i in A) { s } <= 1", "x + sum(i in A) { G } <= 1", "x + prod(i in S) { i } <= 1", "x + sum(i in S) { x_i } <= 1"];
+    for c in cons_probes.iter() {
+        programs.push((format!("min x\ns.t.\n    {}\nwhere\n    let n = 3\n    let k = 2.5\n    let b = true\n    let s = \"str\"\n    let A = [1, 2, 3]\n    let M = [[1, 2], [3, 4]]\n    let S = [\"p\", \"q\"]\n    let G = Graph {{ A -> [B: 2, C], B -> [C], C }}\n    let v = \"A\"\ndefine\n    x as Real\n    x_i as Real for i in 0..4\n    x_p, x_q as Real", c), "probe"));
+    }
+    let decl_probes = ["y as Real(s, 10)", "y as Real(0, G)", "y as IntegerRange(k, 3)", "y as IntegerRange(0, s)", "y as IntegerRange(b, 3)", "y as NonNegativeReal(A, 3)", "y_i as Real for i in s", "y_i as Real for (i, j) in A", "y_i as Real for (i, j, l) in enumerate(A)", "y_i as Real for (i, j, l, o) in edges(G)", "y_i as Boolean for i in 0..len(n)", "y as Integer", "y as Real(0)", "y as Boolean(1)"];
+    for d in decl_probes.iter() {
+        programs.push((format!("min x\ns.t.\n    x >= 1\nwhere\n    let n = 3\n    let k = 2.5\n    let b = true\n    let s = \"str\"\n    let A = [1, 2, 3]\n    let G = Graph {{ A -> [B: 2, C], B -> [C], C }}\ndefine\n    x as Real\n    {}", d), "probe"));
+    }
     if let Some(cp) = corpus { if let Ok(f) = std::fs::read_to_string(cp) { for line in f.lines() { if let Ok(s) = serde_json::from_str::<String>(line) { programs.push((s, "corpus")); } } } }
     for (i, (src, stream)) in programs.iter().enumerate() {
         let p = RoocParser::new(src.clone());
@@ -167,6 +197,7 @@ fn main() {
             Err(_) => rep.fail(json!({"prop":"C18","kind":"panic","stage":"transform","input":src})),
             Ok(Ok(_)) => rep.count(&format!("{stream}.accepted.transforms")),
             Ok(Err(e)) => match type_class(&e) {
+                Some(k) if k == "CannotDestructure" && !static_width_only(src) => rep.count(&format!("{stream}.accepted.data_dependent_error")),
                 Some(k) => { let b = base(&e);
                     // a decision variable of the generated program (x, x_<index>) used where a value is needed
                     let k = match b { TransformError::UndeclaredVariable(nm) if *stream == "perturbed" && (nm == "x" || nm.starts_with("x_")) => "decision-variable-in-value-position", _ => k };
